@@ -3,6 +3,8 @@
    TupleStore monitor (C08, C10).  The trace (ndjson, path in env TRACE):
      {"e":"reset","case":id,"ty":T,"sem":"set"|"bag","width":w,"keys":k,"fam":"ght"|"coll"}
      {"e":"op","op":O,"s":1|2,"row":[..],"rows":[[..]..],"head":h,"prefix":[..],"ret":R,"panic":b}
+     {"e":"dist","bim":B,"side":"l"|"r","a":[[..]..],"da":[[..]..],"b":[[..]..],
+      "ret":[lhs rows, rhs rows, lhs == rhs],"panic":b}        distributivity of a bimorphism (C07)
      {"e":"eof"}
    Broken rules are collected in `viol` as <<case, rule, index of the first offending op>>,
    implementation-level oddities per case in `drift`;
@@ -11,21 +13,25 @@ EXTENDS TupleStore, TLC, Json, IOUtils
 
 Rec == ndJsonDeserialize(IOEnv.TRACE)
 
-VARIABLES l, case, k, viol, drift     \* k: index of the current op within its case
-tvars == <<mvars, l, case, k, viol, drift>>
+VARIABLES l, case, k, viol, viol7, drift     \* k: index of the current op within its case
+tvars == <<mvars, l, case, k, viol, viol7, drift>>
 Ev == Rec[l]
 
-TInit == l = 1 /\ case = 0 /\ k = 0 /\ viol = {} /\ drift = {} /\ MInit
+TInit == l = 1 /\ case = 0 /\ k = 0 /\ viol = {} /\ viol7 = {} /\ drift = {} /\ MInit
 
 TReset == Ev.e = "reset" /\ MReset(Ev.sem, Ev.width, Ev.keys, Ev.fam) /\ case' = Ev.case /\ k' = 0
 TOp == Ev.e = "op" /\ MOp(Ev.op, Ev.s, Ev.row, Ev.rows, Ev.head, Ev.prefix, Ev.ret, Ev.panic)
        /\ UNCHANGED case /\ k' = k + 1
+TDist == Ev.e = "dist" /\ MDist(Ev.bim, Ev.side, Ev.a, Ev.da, Ev.b, Ev.ret, Ev.panic)
+         /\ UNCHANGED case /\ k' = k + 1
 TEof == Ev.e = "eof" /\ UNCHANGED <<mvars, case, k>>
         /\ PrintT(<<"VIOL", ToJson(viol)>>) /\ PrintT(<<"DRIFT", ToJson(drift)>>)
+        /\ PrintT(<<"C07", ToJson(viol7)>>)
 
 TNext ==
     /\ l <= Len(Rec) /\ l' = l + 1
-    /\ (TReset \/ TOp \/ TEof)
+    /\ (TReset \/ TOp \/ TDist \/ TEof)
+    /\ viol7' = viol7 \cup {<<case', b, k'>> : b \in bad7' \ (IF Ev.e = "reset" THEN {} ELSE bad7)}
     /\ viol' = viol \cup {<<case', b, k'>> : b \in bad' \ (IF Ev.e = "reset" THEN {} ELSE bad)}
     /\ drift' = drift \cup {<<case', b>> : b \in odd'}
 
